@@ -24,7 +24,7 @@ RULE = (
     "integer/float/text header values, float and text curves, NaN cells, duplicated and blank mnemonics, header-only, object-dtype curves holding NaN next to text (set_data / set_data_from_df with a text column); "
     "JSON decoded by json.loads with parse_constant raising; CSV for the full product mnemonics {True, False, list} x "
     "units {True, False, list} x units_loc {line, [], (), None} x lineterminator x delimiter decoded by csv.reader; "
-    "Excel decoded by openpyxl; df()/set_data_from_df; depth views for every member of DEPTH_UNITS in upper/lower/title "
+    "Excel decoded by openpyxl; df()/set_data_from_df; every view produced again after in-place edits of the float curves; depth views for every member of DEPTH_UNITS in upper/lower/title "
     "case on STRT, STOP, STEP, curve 0 individually and jointly, all conflicting pairs, non-members, forced index_unit; "
     "non-trivial = export of an object with >= 1 curve, or a unit case other than the table's own spelling"
 )
@@ -128,6 +128,7 @@ def bounds(tier):
 def points(tier):
     pts = []
     for name in OBJ:
+        pts.append(["sequence", name])
         pts.append(["json", name])
         pts.append(["excel", name])
         pts.append(["df", name])
@@ -482,8 +483,77 @@ def check_depth(pt):
     return vio, n, nt
 
 
+def check_sequence(pt):
+    """Every view is produced once, then float curves are edited IN PLACE (a NaN cleared, a NaN set, a value
+    changed), then every view is produced again and compared with the curves as they are now."""
+    las = OBJ[pt[1]]()
+    if not len(las.curves):
+        return []
+    vio = []
+    try:
+        s0 = io.StringIO(newline="")
+        las.to_csv(s0)
+        las.df()
+        las.to_json()
+    except Exception as e:
+        return []  # first export failing is the business of the single-export points
+    edited = False
+    for c in list(las.curves)[1:]:
+        d = c.data
+        if isinstance(d, np.ndarray) and d.dtype.kind == "f" and len(d):
+            d[0] = 123.5 if np.isnan(d[0]) else np.nan
+            d[-1] = -77.25
+            edited = True
+    if not edited:
+        return []
+    cur = list(las.curves)
+    # csv
+    s1 = io.StringIO(newline="")
+    las.to_csv(s1, mnemonics=False, units=False)
+    rows = list(csv.reader(io.StringIO(s1.getvalue(), newline="")))
+    for i, rec in enumerate(rows):
+        for j, field in enumerate(rec):
+            x = np.asarray(cur[j].data)[i]
+            ok = (field.strip().lower() in ("nan", "")) if _isnan(x) else (field == str(x) or _num_equal(field, x))
+            if not ok:
+                vio.append(V("csv-stale-after-inplace-edit", pt, {"row": i, "col": j, "value": repr(x)}, field))
+                break
+        if vio:
+            break
+    # df
+    try:
+        df = las.df()
+        for j, c in enumerate(cur[1:]):
+            if not _same(np.asarray(df.iloc[:, j].values), c.data):
+                vio.append(V("df-stale-after-inplace-edit", pt, {c.mnemonic: np.asarray(c.data).tolist()}, np.asarray(df.iloc[:, j].values).tolist()))
+                break
+    except Exception as e:
+        vio.append(V("df-raises", pt, "DataFrame", repr(e)))
+    # json
+    try:
+        doc = json.loads(las.to_json())
+        for c in cur:
+            want = [None if _isnan(x) else (x.item() if hasattr(x, "item") else x) for x in np.asarray(c.data)]
+            if doc["data"].get(c.mnemonic) != want:
+                vio.append(V("json-stale-after-inplace-edit", pt, {c.mnemonic: want}, doc["data"].get(c.mnemonic)))
+                break
+    except Exception as e:
+        vio.append(V("json-raises", pt, "JSON", repr(e)))
+    return vio
+
+
+def _num_equal(field, x):
+    try:
+        return float(field) == float(x)
+    except Exception:
+        return False
+
+
 def check_point(pt):
     kind = pt[0]
+    if kind == "sequence":
+        vio = check_sequence(pt)
+        return e1.compress(vio), (repr(pt), 1), kind, {}, 3
     if kind == "depth1":
         case = pt[1]
         all_cases = depth_cases()
